@@ -359,6 +359,10 @@ func suiteC01(c *Ctx) {
 		}
 		c.Cov.HitN("exhaustive."+sc.name+".schedules", cnt)
 	}
+	// free-running search for windows no schedule point splits
+	for i := c.N(6, 60); i > 0; i-- {
+		c01Stress(c, c.Rng.Fork())
+	}
 	c.Cov.Exhaustive = false
 	if allDone {
 		c.Cov.Notes = append(c.Cov.Notes, "all schedules of the listed exhaustive scenarios were enumerated (see distribution exhaustive.*); random scenarios are sampled")
